@@ -51,7 +51,8 @@ EXPECTED_PROBES = ["two_pass_kernel", "retry_after_alloc_error_pass1", "retry_af
                    "upsampling_gt1", "filter_used", "linearity_checked", "recombination_checked",
                    "parallax_zero_aberration", "parallax_defocus_shift", "fractional_aperture_weight",
                    "parallax_with_rotation", "override_used", "cropped_mask_instance", "mask_not_a_disc", "energy_not_300kV",
-                   "anisotropic_scan_sampling", "parallax_limit_on_cropped_instance"]
+                   "anisotropic_scan_sampling", "parallax_limit_on_cropped_instance",
+                   "recombination_more_than_two_parts", "batch_size_numpy_int"]
 
 KERNELS = {"ssb": ["ssb", "single-sideband", "acbf", "aberration-corrected-bright-field"],
            "obf": ["obf", "optimum-bright-field"], "mf": ["mf", "matched-filter"],
@@ -136,7 +137,12 @@ def gen(rng: Rng, tier, i):
                     "up": cr.pick([1, 1, 2]), "flip": cr.chance(0.3),
                     "b": ["knob", cr.randrange(10 ** 6)]} if cr.chance(0.5) else None
     plan["recombine"] = {"kernel": rng.pick(["ssb", "prlx", "icom"]), "seed": rng.randrange(10 ** 6),
-                         "b": ["knob", rng.randrange(10 ** 6)]} if rng.chance(0.5) else None
+                         "b": ["knob", rng.randrange(10 ** 6)],
+                         # number of complementary parts and how the sub-mask argument is spelled
+                         "parts": rng.fork("parts").pick([2, 2, 3, 4]),
+                         "form": rng.fork("form").pick(["bool_tensor", "bool_tensor", "bool_ndarray",
+                                                        "int_tensor", "float_ndarray"])
+                         } if rng.chance(0.5) else None
     return plan
 
 
@@ -263,6 +269,9 @@ def run(plan):
                 n_here = int(sub.sum())
                 bump(probes, "submask_used")
             b = _b(call["b"], n_here)
+            if b is not None and (b + j) % 4 == 0:
+                b = np.int64(b)        # a batch size computed with NumPy
+                bump(probes, "batch_size_numpy_int")
             bs = b if b is not None else n_here
             if bs == 1:
                 bump(probes, "batch_size_1")
@@ -389,9 +398,26 @@ def run(plan):
         rc = plan.get("recombine")
         if rc and nb >= 2:
             bump(probes, "recombination_checked")
-            m1, idx1 = _submask(mask, rc["seed"])
-            m2 = mask & ~m1
-            idx2 = np.asarray([q for q in range(nb) if q not in set(idx1.tolist())])
+            nparts = max(2, min(rc.get("parts", 2), nb))
+            if nparts > 2:
+                bump(probes, "recombination_more_than_two_parts")
+            lab = np.asarray([Rng(rc["seed"] + 7 * q).randrange(nparts) for q in range(nb)])
+            lab[:nparts] = np.arange(nparts)          # no empty part
+            ii_, jj_ = np.nonzero(mask)
+            parts = []
+            for p_ in range(nparts):
+                idx_p = np.nonzero(lab == p_)[0]
+                m_p = np.zeros_like(mask)
+                m_p[ii_[idx_p], jj_[idx_p]] = True
+                parts.append((m_p, idx_p))
+            form = rc.get("form", "bool_tensor")
+            if form != "bool_tensor":
+                bump(probes, "submask_given_as_" + form)
+
+            def spell(m_):
+                return {"bool_tensor": lambda: torch.as_tensor(m_), "bool_ndarray": lambda: m_.copy(),
+                        "int_tensor": lambda: torch.as_tensor(m_.astype(np.int64)),
+                        "float_ndarray": lambda: m_.astype(np.float32)}[form]()
             # (contrast-transfer sign flipping is off: with zero aberrations sign(sin(chi)) is 0
             # everywhere and the parallax result is identically zero)
             full = _make(plan, vbf.copy(), mask).reconstruct(
@@ -399,9 +425,9 @@ def run(plan):
             ).corrected_stack.detach().numpy().astype(np.float64)
             a_sum = 0.0
             ok = True
-            for m_, idx in ((m1, idx1), (m2, idx2)):
+            for m_, idx in parts:
                 b = _b(rc["b"], int(m_.sum()))
-                r_ = D.reconstruct(bf_mask=torch.as_tensor(m_), deconvolution_kernel=rc["kernel"],
+                r_ = D.reconstruct(bf_mask=spell(m_), deconvolution_kernel=rc["kernel"],
                                    max_batch_size=b, parallax_flip_phase=False
                                    ).corrected_stack.detach().numpy().astype(np.float64)
                 f_ = full[idx]
